@@ -48,6 +48,16 @@ impl GenCfg {
             panics: true,
         }
     }
+    pub fn large() -> Self {
+        GenCfg {
+            max_helpers: 4,
+            max_stmts: 8,
+            max_depth: 5,
+            budget: 220,
+            max_holes: 60,
+            ..GenCfg::general()
+        }
+    }
     pub fn small() -> Self {
         GenCfg {
             ty: TyCfg::SMALL,
